@@ -19,6 +19,9 @@ class Check:
     def preload(self):
         """import the library modules used (template process: imports only, no calls)"""
 
+    def worker_init(self):
+        """called once in every pool worker and in the driver before it executes cases itself"""
+
     def arm_groups(self, tier):
         """list of arm-name sets; each group runs in its own process pool, forked after preload_group(i)"""
         return [None]
